@@ -124,11 +124,22 @@ def dropEvs (s : KSrc) (ps : List Nat) : List Ev :=
 
 def rangeList (b e : Nat) : List Nat := (List.range (e - b)).map (· + b)
 
-/-- how many of `a` available elements a consumer asking for `k` takes -/
-def takeCount (k : Option Nat) (a : Nat) : Nat :=
+/-- how many of `a` available elements leave the chunk iterator for a consumer `k` -/
+def takeCount (k : Take) (a : Nat) : Nat := k.count a
+
+/-- the owner's `into_seq_iter().take(k)` -/
+def takeCountO (k : Option Nat) (a : Nat) : Nat :=
   match k with
   | none => a
   | some k => min k a
+
+/-- events for the elements `Iterator::nth` discards: a consuming kind's elements are destroyed; the cloned
+adaptor clones each one and destroys the clone (`core::iter::Cloned` has no `nth` of its own) -/
+def skipEvs (s : KSrc) (ps : List Nat) : List Ev :=
+  if s.owning then ps.map fun p => .drop (s.valAt p)
+  else match s.adapt with
+    | .cloned => ps.flatMap fun p => [.clone (s.valAt p), .dropc (s.valAt p)]
+    | _ => []
 
 def add64 (a b : Nat) : Nat := (a + b) % W
 
@@ -232,10 +243,12 @@ def stepRest (s : KSrc) (t : Nat) (c0 c : Cfg) : Cfg × List Ev :=
       else
         let a := e - b
         let j := takeCount kk a
-        let taken := rangeList b (b + j)
+        let sk := kk.skipped a
+        let skipped := rangeList b (b + sk)
+        let taken := rangeList (b + sk) (b + j)
         let rest := rangeList (b + j) e
-        let c := if s.owning then { c with mv := c.mv ++ taken, dr := c.dr ++ rest } else c
-        done c ([ev] ++ cloneEvs s taken ++ dropEvs s rest ++ [.ret (.chunk b a (a - j) (taken.map s.valAt))])
+        let c := if s.owning then { c with mv := c.mv ++ taken, dr := c.dr ++ skipped ++ rest } else c
+        done c ([ev] ++ skipEvs s skipped ++ cloneEvs s taken ++ dropEvs s rest ++ [.ret (.chunk b a (a - j) (taken.map s.valAt))])
     | .bufnext kk =>
       match x.buf with
       | none => done c []
@@ -247,10 +260,12 @@ def stepRest (s : KSrc) (t : Nat) (c0 c : Cfg) : Cfg × List Ev :=
           let e := (pullRange len cv n).2
           let a := e - b
           let j := takeCount kk a
-          let taken := rangeList b (b + j)
+          let sk := kk.skipped a
+          let skipped := rangeList b (b + sk)
+          let taken := rangeList (b + sk) (b + j)
           let rest := rangeList (b + j) e
-          let c := if s.owning then { c with mv := c.mv ++ taken, dr := c.dr ++ rest } else c
-          done c ([ev] ++ cloneEvs s taken ++ dropEvs s rest ++ [.ret (.chunk b a (a - j) (taken.map s.valAt))])
+          let c := if s.owning then { c with mv := c.mv ++ taken, dr := c.dr ++ skipped ++ rest } else c
+          done c ([ev] ++ skipEvs s skipped ++ cloneEvs s taken ++ dropEvs s rest ++ [.ret (.chunk b a (a - j) (taken.map s.valAt))])
         else done c [ev, .ret .fin]
     | .skip =>
       if s.owning then
@@ -314,7 +329,7 @@ def owner (s : KSrc) (c : Cfg) (op : OwnerOp) : Cfg × List Ev :=
     | _ => (c, [.ret .unit])
   | .intoseq kk =>
     let rem := rangeList cur len
-    let j := takeCount kk rem.length
+    let j := takeCountO kk rem.length
     let taken := rem.take j
     let rest := rem.drop j
     let pre := match s.kind with
